@@ -10,6 +10,11 @@ def main():
     except ImportError:
         subprocess.check_call([sys.executable, "-m", "pip", "install", "--no-index", "--find-links",
                                "/opt/veriftools/wheels", "hypothesis"])
+    deps = os.path.join(HERE, ".deps")
+    if not os.path.isdir(os.path.join(deps, "atheris")):
+        # coverage-guided fuzzing for C02 (cp312 wheel from the offline wheelhouse)
+        subprocess.call([sys.executable, "-m", "pip", "install", "-q", "--no-index", "--find-links",
+                         "/opt/veriftools/wheels", "--target", deps, "atheris"])
     import compat
     compat.install()
     from compat import selftest
